@@ -368,6 +368,14 @@ func (h *serialHarness) Run(t *testing.T, ci any) *Outcome {
 		if rerr == nil {
 			return mk("read-error-swallowed", "the reader failed at byte %d of %d but ReadIntoGraph reported success (%d triples)", c.RFail, len(w.buf), m)
 		}
+		// what is reported as loaded is what the graph holds, and it is part of the exported set
+		got := listing(ctx, dst)
+		if m != len(got) {
+			return mk("readintograph-count-after-read-error", "the reader failed at byte %d: ReadIntoGraph reports %d triples, the graph holds %d", c.RFail, m, len(got))
+		}
+		if extra, _ := multisetDiff(got, want); len(extra) > 0 {
+			return mk("roundtrip-set-differs", "after a read error the graph holds triples that were never exported: %q", extra)
+		}
 		o.NonTrivial = true
 		o.Hash = hashStr("rf" + fmt.Sprint(c.Ts, c.RFail))
 		return o
@@ -514,6 +522,7 @@ type damage struct {
 	name  string
 	img   []byte
 	rfail int // the reader fails at this byte offset of the (damaged) image (<0: never)
+	gfail int // the graph being loaded refuses its k-th write (0: never)
 }
 
 func (h *serialHarness) damages(c *SerialCase, img []byte, r *Rand) []damage {
@@ -606,6 +615,11 @@ func (h *serialHarness) damages(c *SerialCase, img []byte, r *Rand) []damage {
 		for i := 0; i < 25; i++ {
 			ds = append(ds, applyDamage(fmt.Sprintf("rfail:%d", r.Intn(len(img)+1)), img))
 		}
+		// the graph being loaded refuses its k-th write (intact file, and a file that is also torn)
+		for k := 1; k <= nl; k++ {
+			ds = append(ds, applyDamage(fmt.Sprintf("gfail:%d", k), img))
+			ds = append(ds, applyDamage(fmt.Sprintf("gfail:%d+torn:%d", k, r.Intn(len(img))), img))
+		}
 		for i := 0; i < 30 && nl > 1; i++ {
 			// a lost head in front of a lost separator: the first record starts in the middle and runs into the next
 			ds = append(ds, applyDamage(fmt.Sprintf("head:%d+merge:0", 1+r.Intn(len(img)-1)), img))
@@ -622,6 +636,10 @@ func applyDamage(spec string, img []byte) damage {
 	for _, one := range strings.Split(spec, "+") {
 		if strings.HasPrefix(one, "rfail:") {
 			d.rfail, _ = strconv.Atoi(one[6:])
+			continue
+		}
+		if strings.HasPrefix(one, "gfail:") {
+			d.gfail, _ = strconv.Atoi(one[6:])
 			continue
 		}
 		out = applyOne(one, out)
@@ -756,8 +774,40 @@ func (h *serialHarness) judgeImage(ctx context.Context, c *SerialCase, d damage,
 	// 1. the reader
 	rd := &simReader{data: d.img, r: r, maxStep: c.MaxStep, eofWith: c.EOFWith, zeros: c.Zeros, failAt: d.rfail}
 	dst := graphOf(ctx, nil)
-	n, rerr := bwio.ReadIntoGraph(ctx, dst, rd, literal.DefaultBuilder())
+	var loadInto storage.Graph = dst
+	var stub *simStore
+	if d.gfail > 0 {
+		stub = newSimStore(nil, simStoreCfg{Faults: []FaultSpec{{Call: d.gfail - 1, Mode: "fail"}}})
+		loadInto = &simGraph{s: stub, g: dst, id: "?g"}
+	}
+	n, rerr := bwio.ReadIntoGraph(ctx, loadInto, rd, literal.DefaultBuilder())
 	got := listing(ctx, dst)
+	if stub != nil && stub.failed > 0 {
+		// the graph refused a write: the call fails, and the count it reports is what the graph holds - the triples
+		// of the first n lines
+		if rerr == nil {
+			return mk("driver-error-swallowed", "the graph refused write %d but ReadIntoGraph reported success (%d triples)", d.gfail, n)
+		}
+		if n != len(got) {
+			return mk("reader-count-after-driver-error", "the graph refused write %d: ReadIntoGraph reports %d triples, the graph holds %d\nimage:\n%q", d.gfail, n, len(got), d.img)
+		}
+		var pref []string
+		for _, ln := range strings.Split(string(d.img), "\n") {
+			if strings.TrimSpace(ln) == "" {
+				continue
+			}
+			tr, err := triple.Parse(ln, literal.DefaultBuilder())
+			if err != nil || tr == nil || len(pref) >= n {
+				break
+			}
+			pref = append(pref, tripleKey(tr))
+		}
+		if !equalStrings(got, distinct(pref)) {
+			extra, missing := multisetDiff(got, distinct(pref))
+			return mk("reader-set-after-driver-error", "the graph does not hold exactly the triples of the first %d lines: extra=%q missing=%q\nimage:\n%q", n, extra, missing, d.img)
+		}
+		return nil
+	}
 	if rd.fired {
 		// The medium failed at byte d.rfail. Nothing is demanded about how much of the delivered part was loaded, but: the
 		// call fails, the reported count is the number of lines loaded, and what was loaded is exactly the triples of the
